@@ -177,6 +177,16 @@ fn normalize_basic_value_for_boundaries(
         None => unbounded_highest,
     };
 
+    // With `finite` an infinite boundary (e.g. `less_or_equal = f64::INFINITY`) is not a valid value itself.
+    let finite_interval = if requires_finite {
+        quote!(
+            let lowest: #inner_type = if lowest < #inner_type::MIN { #inner_type::MIN } else { lowest };
+            let highest: #inner_type = if highest > #inner_type::MAX { #inner_type::MAX } else { highest };
+        )
+    } else {
+        quote!()
+    };
+
     quote! {
         // The least float greater than `v` and the greatest float less than `v`.
         #[allow(unused_variables)]
@@ -194,6 +204,7 @@ fn normalize_basic_value_for_boundaries(
 
         let lowest: #inner_type = #lowest;
         let highest: #inner_type = #highest;
+        #finite_interval
         let x: #inner_type = { #candidate };
 
         // NOTE: `!(x >= lowest)` is also true for NaN (e.g. the result of `inf - inf`).
